@@ -281,9 +281,10 @@ sds_read_header (SF_PRIVATE *psf, SDS_PRIVATE *psds)
 
 	for (blockcount = 0 ; bytesread < psf->filelength ; blockcount++)
 	{
-		bytesread += (int) psf_fread (&marker, 1, 2, psf) ;
+		int got = (int) psf_fread (&marker, 1, 2, psf) ;
 
-		if (marker == 0)
+		bytesread += got ;
+		if (got != 2 || marker == 0)
 			break ;
 
 		psf_fseek (psf, SDS_BLOCK_SIZE - 2, SEEK_CUR) ;
